@@ -5,6 +5,7 @@ import (
 	"go/constant"
 	"go/token"
 	"go/types"
+	"math"
 	"sort"
 	"strings"
 
@@ -190,6 +191,10 @@ func c06ttl(c *Ctx) {
 				return ""
 			})
 			if !polyEq(got, want) {
+				// (round 8) the saturated answer: the largest duration, on a path that found the product too large for one
+				if av := p.Abs(p.Results[0]); av.K == px.ConstV && av.C != nil && constant.Compare(constant.ToInt(av.C), token.EQL, constant.MakeInt64(math.MaxInt64)) {
+					return true, ""
+				}
 				return false, "normal form is " + got.String() + ", want " + want.String()
 			}
 			return true, ""
